@@ -50,7 +50,7 @@ def _detect_from_shebang(file_path: Path) -> str | None:
 
 def _read_first_line(file_path: Path) -> str:
     """Read the first line from a file."""
-    return file_path.read_text(encoding="utf-8").split("\n")[0]
+    return file_path.read_text(encoding="utf-8-sig").split("\n")[0]
 
 
 def _parse_shebang_language(line: str) -> str | None:
